@@ -2136,12 +2136,12 @@ impl Prop for C20 {
         let chunk = sz(10_000, 100_000);
         vec![
             Space { name: "small", size: small, exhaustive: true, chunk: sz(4096, 100_000), case_timeout_s: 5.0, what: "every value of nesting depth <= 2 over 8 leaves (Unit, 0.0, -0.0, NaN with payload, \"\", \"é\\0\", Code, Fixpoint), arrays/tuples/records (keys Latin a / Cyrillic а)/tagged unions (tags 0, u64::MAX); inner width <= 2, outer width <= 1 (quick) / 2 (thorough)" },
-            Space { name: "values", size: sz(600_000, 4_000_000), exhaustive: false, chunk, case_timeout_s: 5.0, what: "random transportable value trees (depth <= 5, width <= 6) through to_ffi_value/to_value and serialize_value/deserialize_value" },
-            Space { name: "types", size: sz(250_000, 1_000_000), exhaustive: false, chunk, case_timeout_s: 5.0, what: "random type trees over all 16 Type variants: TypeNodeId through serialize_macro_args (bincode) and the hand-written Type serde through serde_json with positional transcoding" },
-            Space { name: "args", size: sz(250_000, 1_500_000), exhaustive: false, chunk, case_timeout_s: 5.0, what: "random macro argument lists [(value, type)] of length 0-6 through serialize_macro_args/deserialize_macro_args (1 in 10 with a non-transportable node)" },
-            Space { name: "refused", size: sz(250_000, 1_000_000), exhaustive: false, chunk, case_timeout_s: 5.0, what: "random value trees with one non-transportable node (Fixpoint, ErrorV, ExternalFn, Store, Closure, ConstructorFn) planted at a uniformly chosen node" },
-            Space { name: "handvalue", size: sz(100_000, 500_000), exhaustive: false, chunk, case_timeout_s: 5.0, what: "hand-written Value serde (interpreter/serde_impl.rs) through serde_json with positional transcoding; finite numbers only; half of the cases carry Fixpoint/ErrorV/ConstructorFn (kept) or Closure/ExternalFn/Store (refused)" },
-            Space { name: "bytes", size: sz(300_000, 1_500_000), exhaustive: false, chunk, case_timeout_s: 5.0, what: "decoder robustness: random bytes, tagged random bytes, truncated / bit-flipped / byte-overwritten valid encodings, up to 200 levels of nesting headers; both decoders must return without panicking" },
+            Space { name: "values", size: sz(600_000, 40_000_000), exhaustive: false, chunk, case_timeout_s: 5.0, what: "random transportable value trees (depth <= 5, width <= 6) through to_ffi_value/to_value and serialize_value/deserialize_value" },
+            Space { name: "types", size: sz(250_000, 10_000_000), exhaustive: false, chunk, case_timeout_s: 5.0, what: "random type trees over all 16 Type variants: TypeNodeId through serialize_macro_args (bincode) and the hand-written Type serde through serde_json with positional transcoding" },
+            Space { name: "args", size: sz(250_000, 15_000_000), exhaustive: false, chunk, case_timeout_s: 5.0, what: "random macro argument lists [(value, type)] of length 0-6 through serialize_macro_args/deserialize_macro_args (1 in 10 with a non-transportable node)" },
+            Space { name: "refused", size: sz(250_000, 10_000_000), exhaustive: false, chunk, case_timeout_s: 5.0, what: "random value trees with one non-transportable node (Fixpoint, ErrorV, ExternalFn, Store, Closure, ConstructorFn) planted at a uniformly chosen node" },
+            Space { name: "handvalue", size: sz(100_000, 5_000_000), exhaustive: false, chunk, case_timeout_s: 5.0, what: "hand-written Value serde (interpreter/serde_impl.rs) through serde_json with positional transcoding; finite numbers only; half of the cases carry Fixpoint/ErrorV/ConstructorFn (kept) or Closure/ExternalFn/Store (refused)" },
+            Space { name: "bytes", size: sz(300_000, 15_000_000), exhaustive: false, chunk, case_timeout_s: 5.0, what: "decoder robustness: random bytes, tagged random bytes, truncated / bit-flipped / byte-overwritten valid encodings, up to 200 levels of nesting headers; both decoders must return without panicking" },
         ]
     }
     fn run(&self, space: &str, index: u64, g: &mut Gen, cx: &Cx) -> CaseResult {
